@@ -86,13 +86,13 @@ def r1(ctx, L):
             ctx.ok("C16.R1", "%s:lockset" % name, "%s:%d" % (f.relfile, f.line),
                    "all guarded accesses reachable from here are covered by the lock")
             continue
+        n += 1
         for cls, lst in un.items():
             for (need, origin, chain, prel) in lst:
                 okey = (origin.fn.name, origin.id, need)
                 if okey in reported:
                     continue
                 reported.add(okey)
-                n += 1
                 via = " via " + " <- ".join(c.fn.name for c in chain) if chain else ""
                 fld = vf.last_field(vf.expr(origin.fn, origin["ptr"])) if origin.op in ("load", "store") else (origin.callee or "")
                 ctx.violation("C16.R1", "%s:%s %s" % (name, "write" if need == "W" else "read", fld), origin.loc(),
